@@ -856,6 +856,11 @@ func (st *Stack) Clean() error {
 
 		fn := filepath.Join(st.reftableDir, name)
 		bs, err := NewFileBlockSource(fn)
+		if os.IsNotExist(err) {
+			// Removed since we listed the directory, e.g. by
+			// the compaction that superseded it.
+			continue
+		}
 		if err != nil {
 			return err
 		}
